@@ -64,7 +64,8 @@ Proof.
   - apply in_app_or in H as [H|H]; [auto|]. apply in_status_write in H. discriminate.
   - apply in_app_or in H as [H|H]; [auto|].
     apply plan_exp_reconcile_shape in H; [|exact NN1].
-    destruct H as [(x&H&_)|[H|(r&_&[(_&H)|(s&_&[H|(n&H&_)])])]]; discriminate.
+    destruct H as [(x&H&_)|[H|[(r&_&[(_&H)|(s&_&[H|(n&H&_)])])|(s&_&H&_)]]]; try discriminate.
+    exfalso. inversion H; subst. unfold s_is, s_with_conds in S. cbn [ss_conds] in S. now rewrite smark_running_not_succeeded in S.
 Qed.
 
 Lemma plan_sug_succ w resp st rv onf :
@@ -367,8 +368,7 @@ Proof.
   - now apply Inv_reachable.
   - rewrite Cf. destruct V; assumption.
   - now rewrite Cf.
-  - intros s Hs. split; [auto|].
-    destruct (s_is (s_st s) SSucceeded) eqn:S; [|reflexivity].
+  - intros s Hs. split; [auto|]. intro S. exfalso.
     destruct (succeeded_implies_verdict c acts s V NT P Hs S) as (_&e'&He'&C'). rewrite He in He'. inversion He'; subst. congruence.
 Qed.
 
